@@ -19,13 +19,13 @@ CLAIMED = {
 
  "C05": ("exploration", "Engine H", "seeded history simulation (drive-only) with extraction steps and copy() forks; expected extraction recomputed from the source's own public observation; non-interference between live objects after every operation",
          "Partly claimed.  Histories drive Hypergraph / DirectedHypergraph objects into states only histories reach (id holes, stale tables); at extraction steps subhypergraph(nodes), subhypergraph_by_orders, get_edges(subhypergraph=True,...) and subhypergraph_largest_component are compared by full public observation (weights, node and hyperedge metadata, node set, weightedness) with the selection recomputed from the source's observation; the source is re-observed; copy() is a fork: equal at fork time and, for the rest of the history, an operation on one object never changes the observation of another.",
-         "Selections are sampled per step, not enumerated (the 'every node subset / every list' quantifier is not covered); largest component only without order/size filter; hypergraph-level metadata of extractions not asserted."),
+         "Most steps sample one selection; one step in a quarter (quick) / half (thorough) of the runs enumerates every node subset (<= 6 nodes), every (order|size, 0..6, up_to, keep_isolated) combination and 16 order/size lists on the state reached - still not the full 'every selection on every hypergraph' quantifier; largest component only without order/size filter; hypergraph-level metadata of extractions not asserted; directed hyperedges with overlapping source and target are not generated."),
  "C07": ("exploration", "Engine H", "seeded history simulation (drive-only): batch-wide content-digest <-> hash bijection over every state reached, rebuilt twins, single-element edits, two interpreters with different PYTHONHASHSEED",
          "After every operation of every history (all four containers, detour-heavy op mix) each live object's (content digest, hash) pair enters batch-wide tables that must be functions in both directions, so any two histories meeting in one content are compared; sampled states are rebuilt in sorted and shuffled insertion order (hash equal) and receive every applicable single-element edit (hash different); the observation must be identical before and after hashing; 24/200 seeds are re-run in two fresh interpreters with PYTHONHASHSEED 0 and 12345 and must log identical hashes.",
          "Content = what the public API reports; tables are merged per round of 2400 runs; labels comparable, metadata JSON-native with string keys."),
  "C19": ("exploration", "Engine H + Engine R", "seeded history simulation with filter_hypergraph as a mutating operation checked against a reference model (C19a); get_svh under a scheduled in-process worker pool with permuted execution order, compared with the binomial definition and mp=False (C19b)",
          "Partly claimed.  C19a: filter_hypergraph is one more operation in refinement histories of all four containers (criteria over the metadata in use, missing attributes, empty criteria, both modes, keep_edges) and the history continues afterwards.  C19b: see DESIGN 7/C19.",
-         "The exact FDR constant is not asserted; keep_edges=True corner cases under the ambiguity guard."),
+         "The validated set is compared with the step-up FDR rule for the default alpha only (entries exactly on the threshold skipped); keep_edges=True corner cases under the ambiguity guard; criteria values exclude None (missing attribute and None would be indistinguishable)."),
 
  "C06": ("fault_enumeration", "Engine H + Engine F", "simulated raw file device under the real io stack (ENOSPC/EIO at every byte offset, failing open/close, short raw reads/writes, torn files, overwrite of a longer file), driven from seeded histories; acked-save-implies-equal-load, saved-object-untouched and post-load lock-step oracles",
          "Histories drive objects of all four containers into states with removal history; d_roundtrip steps save and load through the simulated device in both formats (buffer sizes 1/7/64/8192, short raw reads/writes, overwrite of a longer file) and compare the full public observation (type, nodes incl. isolated, hyperedges with direction/time/layer, weightedness, weights, all metadata modulo the reserved keys); the loaded twin is then driven in lock step with its original.  d_faults steps enumerate, for the saved object, every write-fault byte offset for ENOSPC and EIO, a failing close, three failing opens, and every read-fault offset: a save that returns normally must load equal, the saved object must be unchanged even when the save fails, a load that returns under a read fault must equal the saved observation, and a retry on a healthy device must round-trip.  .hgr and HIF documents generated from a document model are read through the same device under every read-fault offset.",
